@@ -76,6 +76,8 @@ def raw(x):
         return lift_float(x)
     if isinstance(x, (int, Fraction, str)) or x is None:
         return x
+    if type(x).__name__ == "FPV":
+        return x
     try:  # real numpy scalars handed in by harnesses
         import numpy as _np
 
@@ -115,6 +117,8 @@ CONCRETE = [False]      # conformance mode: no solver, scalars leave the model a
 
 def box(v):
     """raw value -> user-visible scalar (numpy-scalar look-alike)."""
+    if type(v).__name__ == "FPV":
+        return v
     if CONCRETE[0] and not isinstance(v, z3.ExprRef):
         import numpy as _np
 
@@ -145,6 +149,8 @@ def box(v):
 
 def sort_of(v):
     """dtype letter of a raw value."""
+    if type(v).__name__ == "FPV":
+        return "f"
     if isinstance(v, z3.ExprRef):
         s = v.sort()
         if s == z3.IntSort():
@@ -235,7 +241,20 @@ def _sign_fork(x):
     return (x > 0) - (x < 0)
 
 
+def _fpv():
+    from . import fp
+
+    return fp.FPV
+
+
+def _has_fp(a, b=None):
+    n = type(a).__name__
+    return n == "FPV" or (b is not None and type(b).__name__ == "FPV")
+
+
 def r_add(a, b):
+    if _has_fp(a, b):
+        return a + b if type(a).__name__ == "FPV" else b.__radd__(a)
     sa, sb = is_sym(a), is_sym(b)
     if not sa and not sb:
         return _cfix(_cnum(a) + _cnum(b))
@@ -255,6 +274,8 @@ def _track_int(v):
 
 
 def r_neg(a):
+    if _has_fp(a):
+        return -a
     if is_sym(a):
         return wrap(-_num(a))
     return _cfix(-_cnum(a))
@@ -265,6 +286,8 @@ def r_sub(a, b):
 
 
 def r_mul(a, b):
+    if _has_fp(a, b):
+        return a * b if type(a).__name__ == "FPV" else b.__rmul__(a)
     sa, sb = is_sym(a), is_sym(b)
     if not sa and not sb:
         a, b = _cnum(a), _cnum(b)
@@ -307,6 +330,8 @@ def _deferred(tag, x, y, definition, sort=None):
 
 def r_div(a, b):
     """true division with IEEE special results; forks on symbolic zero divisors."""
+    if _has_fp(a, b):
+        return a / b if type(a).__name__ == "FPV" else b.__rtruediv__(a)
     sa, sb = is_sym(a), is_sym(b)
     if not sa and not sb:
         a, b = _cnum(a), _cnum(b)
@@ -474,6 +499,12 @@ _CMP = {
 
 
 def r_cmp(op, a, b):
+    if _has_fp(a, b):
+        if type(a).__name__ != "FPV":
+            from . import fp
+
+            a = fp.lift(a)
+        return raw({"lt": a.__lt__, "le": a.__le__, "gt": a.__gt__, "ge": a.__ge__, "eq": a.__eq__, "ne": a.__ne__}[op](b))
     sa, sb = is_sym(a), is_sym(b)
     if not sa and not sb:
         if isinstance(a, str) or isinstance(b, str) or a is None or b is None:
@@ -622,6 +653,10 @@ def ite(c, a, b):
     a, b = raw(a), raw(b)
     if not is_sym(c):
         return a if c else b
+    if _has_fp(a, b):
+        from . import fp
+
+        return fp.FPV(z3.If(c, fp.lift(a).e, fp.lift(b).e))
     if not is_sym(a) and not is_sym(b):
         try:
             if type(a) is type(b) and a == b:
